@@ -166,7 +166,9 @@ struct Run : ContBase {
 
     void run() {
         draw_poison();
-        objsize = s.pick({3, 1}) == 0 ? (size_t)s.range(1, 16) : (size_t)s.range(17, 64);
+        { int k = (int)s.pick({6, 2, 2});
+          static const size_t edge[] = {64, 128, 256, 256, 512, 768, 1024, 4096};
+          objsize = k == 0 ? (size_t)s.range(1, 16) : k == 1 ? (size_t)s.range(17, 64) : edge[s.range(0, 7)] + (size_t)s.range(0, 2) - 1; }   // also around/at plausible internal buffer sizes
         cap = (size_t)s.range(0, 8);
         policy = (int)s.range(0, 2);
         int opt = policy == 0 ? (s.boolean() ? QVECTOR_RESIZE_EXACT : 0) : policy == 1 ? QVECTOR_RESIZE_LINEAR : QVECTOR_RESIZE_DOUBLE;
